@@ -36,7 +36,8 @@ var exhaustive = map[string]int64{clB6Byte: 256, clB8Byte: 256, clB6Group: 729, 
 
 func init() {
 	fw.Register(&fw.Prop{
-		ID: "C14",
+		ID:       "C14",
+		Parallel: 4, // cases are judged on 4 goroutines per shard: the library functions are stateless, shared state inside them shows up as wrong verdicts
 		Rule: "exhaustive: every byte through Encode/EncodeToTrytes/Decode/DecodeTrytes of b1t6 and Encode/Decode of b1t8; every one of the 3^6 b1t6 groups as trits (Decode) and as a tryte pair (DecodeTrytes), every one of the 3^8 b1t8 groups. " +
 			"sequences: for every group count 0..64, every position of an invalid group (and none), every remainder length (b1t6: 0..5 trits with 0/1-only and arbitrary contents; trytes: 0 or 1 extra tryte; b1t8: 0..7 trits with and without a -1 in the remainder), random contents, optionally further invalid groups behind the first; random byte strings of length 0..64 (some up to 2000) through encode and decode. " +
 			"Verdict, sentinel (errors.Is), returned byte count and the bytes written before the fault are compared with the model; accepted inputs are re-encoded and must reproduce the input. Only trits in {-1,0,1} and trytes in [9A-Z] are generated. " +
@@ -308,6 +309,8 @@ type codec struct {
 	mDecode    func([]int8) tern.Verdict
 }
 
+var kept fw.Keeper
+
 var c6 = &codec{name: "b1t6", group: 6, encodedLen: b1t6.EncodedLen, decodedLen: b1t6.DecodedLen, encode: b1t6.Encode, decode: b1t6.Decode,
 	errInvalid: b1t6.ErrInvalidTrits, errLength: b1t6.ErrInvalidLength, mEncode: tern.B1T6Encode, mDecode: tern.B1T6Decode}
 var c8 = &codec{name: "b1t8", group: 8, encodedLen: b1t8.EncodedLen, decodedLen: b1t8.DecodedLen, encode: b1t8.Encode, decode: b1t8.Decode,
@@ -471,6 +474,8 @@ func decodeTrytes(o *fw.Obs, class, s string) (out []byte, accepted bool) {
 	if !o.Try("b1t6.DecodeTrytes", func() { got, err = b1t6.DecodeTrytes(trinary.Trytes(s)) }) {
 		return nil, false
 	}
+	kept.Keep("bytes returned by b1t6.DecodeTrytes", got)
+	defer kept.Check(o)
 	o.Count(fmt.Sprintf("%s model=%s impl=%s", class, ar(mv.Accept()), ar(err == nil)))
 	if mv.Accept() != (err == nil) {
 		o.Fail("verdict", "b1t6.DecodeTrytes(%q): model says %s, implementation %s (err=%v)", s, ar(mv.Accept()), ar(err == nil), err)
